@@ -18,48 +18,9 @@ pub fn decorate(r: &mut Rng, q: &str, cols: &[Col]) -> (String, bool) {
     } else { (q.to_string(), false) }
 }
 
-pub fn run(outdir: &str, seed: u64, thorough: bool) -> serde_json::Value {
-    let w = world();
-    let mut rng = Rng::new(seed ^ 0xC08);
-    let mut st = Stats::default();
-    let n = if thorough { 20000 } else { 700 };
-    let mut data = gen_data(&mut rng.fork(), &w.specs, 12);
-    let mut db = Db::new(&w.specs, &data);
-    for i in 0..n {
-        let mut r = rng.fork();
-        if i % 25 == 24 { data = gen_data(&mut r, &w.specs, 12); db = Db::new(&w.specs, &data); }
-        let depth = r.range(0, 2) as u32;
-        let (q0, cols) = { let mut g = QGen::new(&mut r, &w.specs); g.bool_items = true; g.allow_outer = true; g.query(depth) };
-        let is_set = q0.contains(" UNION ") || q0.contains(" INTERSECT ") || q0.contains(" EXCEPT ");
-        let (sql, ordered) = if is_set { (q0.clone(), false) } else { decorate(&mut r, &q0, &cols) };
-        let rel = match catch_unwind(AssertUnwindSafe(|| to_relation(&w, &sql))) { Ok(Ok(rel)) => rel, Ok(Err(_)) => { st.bump("query_rejected"); continue; } Err(_) => { st.bump("query_panicked"); continue; } };
-        let rendered = match catch_unwind(AssertUnwindSafe(|| render(&rel))) { Ok(s) => s, Err(_) => { st.bump("render_panicked"); continue; } };
-        let orig = db.query(&sql);
-        let back = db.query(&rendered);
-        st.evaluations += 1;
-        let (on, orows) = match orig { Ok(x) => x, Err(e) => { st.bump("original_not_executable_on_sqlite"); if st.notes.len() < 4 { st.notes.push(format!("sqlite rejects original: {} :: {}", e, sql)); } continue; } };
-        match back {
-            Err(e) => { st.violation(json!({"kind":"rendered-sql-not-executable","query":sql,"rendered":rendered,"error":e})); }
-            Ok((bn, brows)) => {
-                st.distinct.insert(hash_str(&sql));
-                st.bump(if orows.is_empty() { "empty_result" } else { "nonempty_result" });
-                let same_bag = bag(&orows) == bag(&brows);
-                let same_order = !ordered || orows.iter().zip(brows.iter()).all(|(a, b)| a.iter().map(|x| x.canon()).collect::<Vec<_>>() == b.iter().map(|x| x.canon()).collect::<Vec<_>>());
-                let same_names = on == bn;
-                if !same_bag || !same_order || !same_names {
-                    st.violation(json!({"kind": if !same_names { "output-names-differ" } else if !same_bag { "result-multiset-differs" } else { "order-differs" },
-                        "query":sql,"rendered":rendered,"original_columns":on,"rendered_columns":bn,
-                        "original_rows":orows.iter().take(6).map(|r| r.iter().map(|x| x.json()).collect::<Vec<_>>()).collect::<Vec<_>>(),
-                        "rendered_rows":brows.iter().take(6).map(|r| r.iter().map(|x| x.json()).collect::<Vec<_>>()).collect::<Vec<_>>(),
-                        "original_count":orows.len(),"rendered_count":brows.len(),
-                        "tables": data.iter().map(|(k, v)| (k.clone(), v.len())).collect::<std::collections::BTreeMap<_, _>>()}));
-                }
-                if i < 2 { st.sample(json!({"query":sql,"rendered":rendered.chars().take(300).collect::<String>(),"rows":orows.len()})); }
-            }
-        }
-    }
-    // ---- constructs the tree generator does not produce: templates with random parameters ----
-    let templates: Vec<(&str, &str)> = vec![
+/// constructs the tree generator does not produce: (name, query with a random parameter {k}); also run by C07, C16 and C17
+pub fn templates() -> Vec<(&'static str, &'static str)> {
+    vec![
         ("comma-join", "SELECT u.age AS a, o.amount AS b FROM users AS u, orders AS o WHERE u.id = o.user_id"),
         ("set-op-order-limit", "SELECT t.age AS x FROM users AS t UNION SELECT o.user_id AS x FROM orders AS o ORDER BY x LIMIT {k}"),
         ("set-op-order", "SELECT t.age AS x FROM users AS t UNION ALL SELECT o.user_id AS x FROM orders AS o ORDER BY x DESC"),
@@ -126,9 +87,60 @@ pub fn run(outdir: &str, seed: u64, thorough: bool) -> serde_json::Value {
         ("cross-join", "SELECT u.id AS i, c.pop AS p FROM users AS u CROSS JOIN cities AS c"),
         ("qualified-star", "SELECT t.* FROM users AS t"),
         ("star", "SELECT * FROM orders"),
-    ];
+    ].into_iter().chain(crate::c17::frag_templates().into_iter().map(|q| ("dialect-template", q))).chain(crate::c17::fn_templates()).collect()
+}
+
+/// templates whose relation is listed under C08 as not implementing the query (findings/known_findings.jsonl): the checks of
+/// other properties that judge the relation by the rows of the query leave them out
+pub const MISTRANSLATED: [&str; 12] = ["fn-log2-log10", "string-literal-adjacent-quotes", "set-op-order", "set-op-order-limit", "group-by-ordinal", "order-by-aggregate", "limit-only", "offset", "order-by-two-tables",
+    "group-by-keys-only-with-where", "having-aggregate-of-the-grouping-key", "column-selected-twice"];
+
+pub fn run(outdir: &str, seed: u64, thorough: bool) -> serde_json::Value {
+    let w = world();
+    let mut rng = Rng::new(seed ^ 0xC08);
+    let mut st = Stats::default();
+    let n = if thorough { 20000 } else { 700 };
+    let mut data = gen_data(&mut rng.fork(), &w.specs, 12);
+    let mut db = Db::new(&w.specs, &data);
+    for i in 0..n {
+        let mut r = rng.fork();
+        if i % 25 == 24 { data = gen_data(&mut r, &w.specs, 12); db = Db::new(&w.specs, &data); }
+        let depth = r.range(0, 2) as u32;
+        let (q0, cols) = { let mut g = QGen::new(&mut r, &w.specs); g.bool_items = true; g.allow_outer = true; g.query(depth) };
+        let is_set = q0.contains(" UNION ") || q0.contains(" INTERSECT ") || q0.contains(" EXCEPT ");
+        let (sql, ordered) = if is_set { (q0.clone(), false) } else { decorate(&mut r, &q0, &cols) };
+        let rel = match catch_unwind(AssertUnwindSafe(|| to_relation(&w, &sql))) { Ok(Ok(rel)) => rel, Ok(Err(_)) => { st.bump("query_rejected"); continue; } Err(_) => { st.bump("query_panicked"); continue; } };
+        let rendered = match catch_unwind(AssertUnwindSafe(|| render(&rel))) { Ok(s) => s, Err(_) => { st.bump("render_panicked"); continue; } };
+        let orig = db.query(&sql);
+        let back = db.query(&rendered);
+        st.evaluations += 1;
+        let (on, orows) = match orig { Ok(x) => x, Err(e) => { st.bump("original_not_executable_on_sqlite"); if st.notes.len() < 4 { st.notes.push(format!("sqlite rejects original: {} :: {}", e, sql)); } continue; } };
+        match back {
+            Err(e) => { st.violation(json!({"kind":"rendered-sql-not-executable","query":sql,"rendered":rendered,"error":e})); }
+            Ok((bn, brows)) => {
+                st.distinct.insert(hash_str(&sql));
+                st.bump(if orows.is_empty() { "empty_result" } else { "nonempty_result" });
+                let same_bag = bag(&orows) == bag(&brows);
+                let same_order = !ordered || orows.iter().zip(brows.iter()).all(|(a, b)| a.iter().map(|x| x.canon()).collect::<Vec<_>>() == b.iter().map(|x| x.canon()).collect::<Vec<_>>());
+                let same_names = on == bn;
+                if !same_bag || !same_order || !same_names {
+                    st.violation(json!({"kind": if !same_names { "output-names-differ" } else if !same_bag { "result-multiset-differs" } else { "order-differs" },
+                        "query":sql,"rendered":rendered,"original_columns":on,"rendered_columns":bn,
+                        "original_rows":orows.iter().take(6).map(|r| r.iter().map(|x| x.json()).collect::<Vec<_>>()).collect::<Vec<_>>(),
+                        "rendered_rows":brows.iter().take(6).map(|r| r.iter().map(|x| x.json()).collect::<Vec<_>>()).collect::<Vec<_>>(),
+                        "original_count":orows.len(),"rendered_count":brows.len(),
+                        "tables": data.iter().map(|(k, v)| (k.clone(), v.len())).collect::<std::collections::BTreeMap<_, _>>()}));
+                }
+                if i < 2 { st.sample(json!({"query":sql,"rendered":rendered.chars().take(300).collect::<String>(),"rows":orows.len()})); }
+            }
+        }
+    }
+    // ---- constructs the tree generator does not produce: templates with random parameters ----
+    let templates = templates();
     let m = if thorough { 40 } else { 3 };
     for (name, tpl) in templates.iter() {
+        // (SQLite has no SUBSTRING(x FROM a FOR b): the default rendering of SUBSTR is executed by no check, its SQLite translation by C17)
+        if *name == "fn-substr" { continue; }
         for j in 0..m {
             let mut r = rng.fork();
             if j > 0 { data = gen_data(&mut r, &w.specs, 12); db = Db::new(&w.specs, &data); }
